@@ -138,6 +138,8 @@ class Builder:
             for _ in range(int(via[3])):
                 bi = h.flipped(bi)
             return bi
+        if via == "mult":
+            return (2 * B(flipped=bool(flipped), **kw))[1]  # `a, b = 2 * B(...)`: the copies keep the declaration
         if via == "flipped" and flipped:
             return h.flipped(B(**kw))
         return B(flipped=bool(flipped), **kw)
